@@ -1021,6 +1021,9 @@ def run(ctx):
             if mod['compiles'] != ok:
                 ctx.disagree('compiles', {'universe': case['universe']}, ok, mod['compiles'])
             ctx.hit('universe-wf:%s' % mod['wf'])
+            if mod['wf'] and not (ok and mod['compiles'] and mod['resolvesOk']):
+                # theorems gen_compiles / closed_of_wf evaluated on this universe
+                ctx.disagree('wf-implies-compiles', {'universe': case['universe']}, ok, [mod['compiles'], mod['resolvesOk']])
             if ok and not mod['wf'] and 'label' not in case:
                 ctx.hit('universe-outside-wf')
         elif op == 'verdicts':
